@@ -500,12 +500,16 @@ class Engine:
             self.qdepth -= len(ghost_bound)
             return self.coerce(res, parse_type(c.returns)) if c.returns != "Any" else res
         # the callee may write the listed fields of its `self`: havoc them, the ensures speaks about the new values
-        mods = (c.path_hints or {}).get("modifies", [])
-        if mods and not self.spec_mode and "self" in env and isinstance(env["self"], VRec):
-            obj = env["self"]
-            for f in mods:
-                ft = parse_type(self.reg.records[obj.cls].fields[f])
-                st.heap.setdefault(f"{obj.cls}.{f}", []).append((obj.t, self.fac.mk(ft, fresh_name(f"{obj.cls}.{f}.after"))))
+        if not self.spec_mode:
+            for pname, flds in self.modifies_of(c).items():
+                obj = env.get(pname)
+                if isinstance(obj, VOpt):
+                    obj = obj.val
+                if not isinstance(obj, VRec):
+                    continue
+                for f in flds:
+                    ft = parse_type(self.reg.records[obj.cls].fields[f])
+                    st.heap.setdefault(f"{obj.cls}.{f}", []).append((obj.t, self.fac.mk(ft, fresh_name(f"{obj.cls}.{f}.after"))))
         rt = parse_type(c.returns)
         if self.comp_ctx:
             # inside a comprehension the result is a function of the index (same symbol on every evaluation)
@@ -559,8 +563,21 @@ class Engine:
                 if note not in self.dropped:
                     self.dropped.append(note)
                 return st.env[ghost[txt]]
+        untracked = (self.c.path_hints or {}).get("untracked_fields") if not self.spec_mode else None
+        if untracked:
+            tgt = None
+            if isinstance(node, ast.Compare) and len(node.ops) == 1 and isinstance(node.ops[0], (ast.In, ast.NotIn)):
+                tgt = node.comparators[0]
+            elif isinstance(node, ast.Subscript):
+                tgt = node.value
+            if isinstance(tgt, ast.Attribute) and tgt.attr in untracked:
+                note = f"reads of the untracked field `{tgt.attr}` are unconstrained (any value)"
+                if note not in self.dropped: self.dropped.append(note)
+                if isinstance(node, ast.Compare):
+                    return VBool(z3.Bool(fresh_name("untracked_in")))
+                return self.fac.mk(TAny(), fresh_name("untracked_read"))
         ghost_calls = (self.c.path_hints or {}).get("calls") if not self.spec_mode else None
-        if ghost_calls and isinstance(node, (ast.Call, ast.Subscript)):
+        if ghost_calls and isinstance(node, (ast.Call, ast.Subscript, ast.Compare)):
             txt = ast.unparse(node)
             if txt in ghost_calls:
                 return self.ghost_call(ghost_calls[txt], txt, node, st)
@@ -825,6 +842,11 @@ class Engine:
         if isinstance(node.slice, ast.Slice):
             return self.slice(base, node.slice, st, node.lineno)
         idx = self.ev(node.slice, st)
+        if isinstance(base, VRec):
+            m = self.method_contract(base.cls, "__getitem__")
+            if m is None:
+                raise Unsupported(f"subscript on record {base.cls}")
+            return self.call_contract(m, [base, idx], st, node.lineno)
         if isinstance(base, VNStr):
             i = self.as_int(idx)
             n = z3.Length(base.t)
@@ -990,16 +1012,18 @@ class Engine:
             f = self.resolve_field(base.cls, target.attr)
             if f is None:
                 raise Unsupported(f"store to undeclared field {base.cls}.{target.attr} at L{lineno}")
-            allowed = (self.c.path_hints or {}).get("modifies", [])
-            is_self = isinstance(target.value, ast.Name) and target.value.id == "self"
-            if not (is_self and (self.c.qualname.split("@")[0].endswith("__init__") or f in allowed)):
-                # frame: only `self` fields listed in `modifies` (all fields in a constructor) may be written
-                self.oblige(st, f"frame@L{lineno}:{base.cls}.{f}", "frame", z3.BoolVal(False), lineno,
-                            detail="store outside the contract's modifies clause")
+            if f in (self.c.path_hints or {}).get("untracked_fields", []):
+                return
+            self.check_frame(st, target.value, base, f, lineno)
             ft = parse_type(self.reg.records[base.cls].fields[f])
             if not self.c.qualname.split("@")[0].endswith("__init__") and f not in getattr(self.reg.records[base.cls], "mutable", []):
                 raise Unsupported(f"store to immutable field {base.cls}.{f} outside the constructor")
             st.heap.setdefault(f"{base.cls}.{f}", []).append((base.t, self.coerce(val, ft)))
+            return
+        if isinstance(target, ast.Subscript) and isinstance(target.value, ast.Attribute) \
+                and target.value.attr in (self.c.path_hints or {}).get("untracked_fields", []):
+            note = f"stores into the untracked field `{target.value.attr}` are not modelled (its reads are unconstrained)"
+            if note not in self.dropped: self.dropped.append(note)
             return
         if isinstance(target, ast.Subscript) and isinstance(target.value, ast.Name) and target.value.id in st.env \
                 and not isinstance(target.slice, ast.Slice):
@@ -1046,6 +1070,22 @@ class Engine:
                     self.bind_target(e, self.elem(s, s.length - off), st, lineno)
             return
         raise Unsupported("assignment target")
+
+    def modifies_of(self, c) -> Dict[str, List[str]]:
+        """modifies clause: a list (fields of `self`) or a dict parameter name -> fields"""
+        m = (c.path_hints or {}).get("modifies", [])
+        return m if isinstance(m, dict) else {"self": list(m)}
+
+    def check_frame(self, st: State, owner_node, owner: VRec, f: str, lineno: int):
+        """frame: only fields listed in `modifies` for the parameter the owner expression names may be written
+        (every field of `self` in a constructor)"""
+        mods = self.modifies_of(self.c)
+        pname = owner_node.id if isinstance(owner_node, ast.Name) else None
+        ok = pname is not None and (f in mods.get(pname, []) or
+                                    (pname == "self" and self.c.qualname.split("@")[0].endswith("__init__")))
+        if not ok:
+            self.oblige(st, f"frame@L{lineno}:{owner.cls}.{f}", "frame", z3.BoolVal(False), lineno,
+                        detail="store outside the contract's modifies clause")
 
     def comp_body(self, node, g, it: VSeq, st: State, idx, elt_node) -> Tuple[Any, V]:
         """evaluate filter conjunction and element at symbolic index idx"""
@@ -1145,6 +1185,15 @@ class Engine:
                  z3.ForAll([i], z3.Implies(in_rng, cnt(i + 1) == cnt(i) + z3.If(p, 1, 0))),
                  z3.ForAll([i], z3.Implies(z3.And(in_rng, p), self.eq(res.at(cnt(i)), f))),
                  res.length == cnt(it.length)]
+        # every element of the result comes from a source element that passed the filter (src: its index)
+        src = z3.Function(name + ".src", z3.IntSort(), z3.IntSort())
+        j = self.bound_var()
+        try:
+            pj, fj = body(src(j))
+            facts.append(z3.ForAll([j], z3.Implies(z3.And(j >= 0, j < res.length),
+                                                   z3.And(src(j) >= 0, src(j) < it.length, pj, self.eq(res.at(j), fj)))))
+        finally:
+            self.unbind()
         st.pc.extend(facts)
         self.filter_cnt = cnt
         for h in (self.c.path_hints or {}).get("filter_lemmas", []):
@@ -1268,6 +1317,20 @@ class Engine:
             return self.join(sep, self.ev(node.args[0], st), st, node.lineno)
         if any(isinstance(a, ast.Starred) for a in node.args):
             raise Unsupported("starred call argument")
+        if isinstance(node.func, ast.Attribute) and node.func.attr == "append" and len(node.args) == 1 \
+                and isinstance(node.func.value, ast.Attribute):
+            # append to a list held in a (mutable) record field: a heap write  o.f := o.f + [x]
+            owner = self.ev(node.func.value.value, st)
+            if isinstance(owner, VRec):
+                f = self.resolve_field(owner.cls, node.func.value.attr)
+                if f is not None and f in getattr(self.reg.records[owner.cls], "mutable", []):
+                    self.check_frame(st, node.func.value.value, owner, f, node.lineno)
+                    old_l = self.to_seq(self.read_field(owner, f, st.heap))
+                    x = self.ev(node.args[0], st)
+                    n = old_l.length
+                    new_l = VSeq(old_l.kind, n + 1, lambda k, old_l=old_l, n=n, x=x: self.merge(k == n, x, old_l.at(k)), old_l.elt)
+                    st.heap.setdefault(f"{owner.cls}.{f}", []).append((owner.t, new_l))
+                    return VNone()
         if isinstance(node.func, ast.Attribute) and isinstance(node.func.value, ast.Name) \
                 and node.func.value.id in (self.c.path_hints or {}).get("local_lists", []) \
                 and node.func.value.id in st.env and node.func.attr in ("append", "pop"):
@@ -1583,10 +1646,13 @@ class Engine:
             return obj
         # dataclass-style: positional args are the fields in declaration order
         fields = list(r.fields.keys())
-        if len(args) + len(kwargs) != len(fields):
-            raise Unsupported(f"constructor {cls} arity")
         vals = dict(zip(fields, args))
         vals.update(kwargs)
+        for fname, dtext in (getattr(r, "defaults", None) or {}).items():
+            if fname not in vals:
+                vals[fname] = self.ev_clause(dtext, {})
+        if len(args) > len(fields) or set(vals) != set(fields):
+            raise Unsupported(f"constructor {cls} arity")
         for fname in fields:
             ft = parse_type(r.fields[fname])
             fact = self.ident(self.fac.field(obj, fname), self.coerce(vals[fname], ft))
@@ -2176,6 +2242,11 @@ def exc_is_a(name: str, base: str) -> bool:
 
 def _b_len(e: Engine, args, kw, st, ln):
     v = args[0]
+    if isinstance(v, VRec):
+        m = e.method_contract(v.cls, "__len__")
+        if m is None:
+            raise Unsupported(f"len() of record {v.cls}")
+        return e.call_contract(m, [v], st, ln)
     if isinstance(v, VOpt):
         e.safety(st, z3.Not(v.is_none), "TypeError", ln, "len-of-None")
         v = v.val
